@@ -90,6 +90,14 @@ class ExprMixin:
         s = z3.simplify(idx >= 0)
         if z3.is_true(s) or getattr(self, "_no_wrap", False):
             return idx
+        if self.spec:
+            # contract expressions index from the front; python's negative wrap-around is not part of the contract language
+            return idx
+        # keep the index term clean (no if-then-else) whenever the path condition already implies idx >= 0: quantifier
+        # instantiation works on clean terms, and almost every index is a loop counter
+        from . import solve as _solve
+        if _solve.quick_valid(st.full_pc(), idx >= 0):
+            return idx
         return ite(idx >= 0, idx, idx + n)
 
     def clamp_slice(self, st, lo, hi, n):
